@@ -22,6 +22,9 @@
 /* ghost: the MATHEMATICAL value of the digits read so far (positional notation) while it is < 2^32; sticky once it is not */
 uint64_t G_val;
 #define XML_ACC(base, d) do { if (G_val <= 0xFFFFFFFFull) G_val = G_val * (base) + (d); } while (0)
+/* ghost step for the digit c just read: the base comes from the PREFIX of the reference ("#x"/"#X" = hexadecimal, else decimal), not from the
+ * branch the code took. (For a character that is no digit the value is irrelevant: the function must refuse.) */
+#define XML_ACC_DIGIT(c) do { if (IS_HEXREF) XML_ACC(16u, XML_HEXVAL(c)); else XML_ACC(10u, XML_DECVAL(c)); } while (0)
 /* GD = arbitrary index into the entity body, GDC the byte there (defined by the precondition; inlined where the contract replaces a call) */
 size_t GD;
 #ifdef XML_GHOST_INLINE
@@ -32,10 +35,16 @@ char GDC;
 #define XML_GDC_DEF (GD < entBody.n ==> GDC == entBody.p[GD])
 #endif
 
-#define DECL_appendCharRef(sym, POST) bool sym(iora_sv entBody, iora_ostr *out) \
-  __CPROVER_requires(IORA_TRUE && (entBody.n >> 40) == 0 && __CPROVER_is_fresh(entBody.p, entBody.n) && __CPROVER_is_fresh(out, sizeof(*out)) && out->n <= ((size_t)1 << 50)) \
-  __CPROVER_requires(XML_GDC_DEF && G_val == 0) \
-  __CPROVER_assigns(out->n, out->gk, G_val) POST ;
+/* SIG / PRE / FRAMELIST separately, so that a plain harness (unit xml_decode, step proof) can build an assert/havoc/assume stub from the same parts */
+#define ACR_SIG(sym) bool sym(iora_sv entBody, iora_ostr *out)
+#ifdef XML_STUB_MODE
+#define ACR_MEM (__CPROVER_r_ok(entBody.p, entBody.n) && __CPROVER_rw_ok(out, sizeof(*out)))
+#else
+#define ACR_MEM (__CPROVER_is_fresh(entBody.p, entBody.n) && __CPROVER_is_fresh(out, sizeof(*out)))
+#endif
+#define ACR_PRE (IORA_TRUE && (entBody.n >> 40) == 0 && ACR_MEM && out->n <= ((size_t)1 << 50) && XML_GDC_DEF && G_val == 0)
+#define ACR_FRAMELIST out->n, out->gk, G_val
+#define DECL_appendCharRef(sym, POST) ACR_SIG(sym) __CPROVER_requires(ACR_PRE) __CPROVER_assigns(ACR_FRAMELIST) POST ;
 #define IS_HEXREF (entBody.p[1] == (char)120 || entBody.p[1] == (char)88)
 /* R1 a body shorter than 2 ("#" alone) is refused; R2 acceptance => every character after the prefix is a digit of the base (witness index GD);
  * R3 acceptance appends one UTF-8 sequence (1..4 bytes); refusal appends nothing; earlier output untouched */
